@@ -115,16 +115,20 @@ func sortedFuncs(m map[*ssa.Function]bool) []*ssa.Function {
 	return out
 }
 
-// allowedAstWrites: function -> field -> reason. The closed inventory of
-// in-place edits of the target file.
+// allowedAstWrites: package-relative path -> go/ast field -> reason. The closed
+// inventory of in-place edits of the target file; it is keyed by package and
+// field, not by function, so moving an edit into a private helper changes
+// nothing. The conditions under which each edit happens are checked where the
+// store is (R1 package rename guard, R3 paren reset).
 var allowedAstWrites = map[string]map[string]string{
-	"(internal/engine.FileReplacer).Replace": {"Ident.Name": "package clause renamed when the '+' side names a package (guarded by r.Package != \"\")"},
-	"(internal/engine.ImportsReplacer).Cleanup": {
-		"GenDecl.Lparen": "parens of a single-spec import declaration removed", "GenDecl.Rparen": "parens of a single-spec import declaration removed",
-		"File.Imports": "reset to nil when empty",
+	"internal/engine": {
+		"Ident.Name":     "package clause renamed when the '+' side names a package (guarded by r.Package != \"\")",
+		"GenDecl.Lparen": "parens of a single-spec import declaration removed (guarded by Tok == IMPORT)",
+		"GenDecl.Rparen": "parens of a single-spec import declaration removed (guarded by Tok == IMPORT)",
+		"File.Imports":   "reset to nil when empty",
 	},
-	"main.cleanupFilePos":  {"CommentGroup.List": "comments inside changed intervals removed"},
-	"patch.cleanupFilePos": {"CommentGroup.List": "comments inside changed intervals removed"},
+	"":      {"CommentGroup.List": "comments inside changed intervals removed"},
+	"patch": {"CommentGroup.List": "comments inside changed intervals removed"},
 }
 
 func c05Ownership(r *an.Run) {
@@ -157,8 +161,9 @@ func c05Ownership(r *an.Run) {
 				continue
 			}
 		}
-		why, ok := allowedAstWrites[short(w.fn)][w.field]
-		key := short(w.fn) + "|writes|" + w.field
+		rel := strings.TrimPrefix(strings.TrimPrefix(an.FuncPkgPath(w.fn), an.Module), "/")
+		why, ok := allowedAstWrites[rel][w.field]
+		key := rel + "|writes|" + w.field
 		if ok {
 			if !seen[key] {
 				r.Pass(key, w.in.Pos(), "inventoried in-place edit: %s", why)
@@ -314,6 +319,14 @@ func c05ParenReset(r *an.Run) {
 		return
 	}
 	importTok := tokenConst(r, "IMPORT")
+	n := 0
+	for _, g := range helperGroup(f, 2) {
+		n += c05ParenResetIn(r, g, importTok)
+	}
+	r.Check(n == 2, short(f)+"|paren-writes", f.Pos(), "two paren fields are reset (found %d)", n)
+}
+
+func c05ParenResetIn(r *an.Run, f *ssa.Function, importTok int64) int {
 	var tokEdges []an.CtrlEdge
 	for _, c := range an.EqCases(f, func(v ssa.Value) bool {
 		u, ok := v.(*ssa.UnOp)
@@ -334,9 +347,9 @@ func c05ParenReset(r *an.Run) {
 		}
 		n++
 		st := w.in.(*ssa.Store)
-		r.Check(len(tokEdges) > 0 && unreachableWithout(st.Block(), tokEdges), short(f)+"|"+w.field, st.Pos(), "parens are reset only on declarations whose token is IMPORT")
+		r.Check(len(tokEdges) > 0 && unreachableWithout(st.Block(), tokEdges), "paren-reset|"+w.field, st.Pos(), "parens are reset only on declarations whose token is IMPORT")
 	}
-	r.Check(n == 2, short(f)+"|paren-writes", f.Pos(), "two paren fields are reset (found %d)", n)
+	return n
 }
 
 // c05NoStaleSlot: matched nodes are recorded by index into their parent's
